@@ -26,9 +26,9 @@ MUTANTS = [
     # the translation AS CODED in z3wrapper.convert: no guard 0 <= x for a nat binder under Exists
     ("translation_as_coded_exists",
      [("C06_Bridge.tla", 'QEx(t[2], "int", Conj(Guard(Bd(0, "int")), c1))', 'QEx(t[2], "int", c1)')]),
-    # natural subtraction that does not truncate
+    # natural subtraction that does not truncate (absolute difference instead)
     ("nat_minus_not_truncated",
-     [("C06_Sem.tla", 'IF T = "nat" THEN Fit(T, NatMinus(a1, a2)) ELSE Fit(T, RSub(a1, a2))', 'Fit(T, RSub(a1, a2))')]),
+     [("C06_Sem.tla", "IF RIsOvf(d) THEN NAV ELSE IF d[1] < 0 THEN <<0, 1>> ELSE d", "IF RIsOvf(d) THEN NAV ELSE IF d[1] < 0 THEN RNeg(d) ELSE d")]),
     # a witness interval that is too small
     ("witness_bound_too_small",
      [("C06_Sem.tla", "tq == tq0 * P.w", "tq == P.w - 1")]),
